@@ -217,8 +217,10 @@ theorem archSymlink_log (fs : Fs.St) (path target : Bytes)
       subst this; rfl
     · refine ⟨[⟨"symlink", q'⟩, ⟨"unlink", fs.cwd ++ comps path⟩], by rw [hs, hlog]; rfl, ?_⟩
       have hq'' : q' = fs.cwd ++ comps path := by
+        have hne : path ≠ [] := by
+          intro h; subst h; rw [resolvePath_nil] at hq'; cases hq'
         unfold Fs.resolvePath at hq'
-        rw [resolveRR_rel s' false path hrel, hcwd] at hq'
+        rw [resolveRR_rel s' false path hrel hne, hcwd] at hq'
         cases hres : Fs.resolve s' false 64 fs.cwd (comps path) with
         | ok r =>
           rw [hres] at hq'
